@@ -123,9 +123,12 @@ KINDS = {
                   nested_item="Keyed"),
     "any": dict(name="anyv", ann="Any", conf=[1, ["list", [1]]], bad=[], lit="None", lit_spec=None, mut="[1]", mut_spec=["list", [1]]),
 }
+# List[EVEN]: items judged by a user validator (a callback that can be made to raise); used by C04 only
+KINDS["evens"] = dict(name="evens", ann="List[EVEN]", conf=[["list", []], ["list", [0]], ["list", [2, 4]]], bad=[["list", [3]]],
+                      mut="[2]", mut_spec=["list", [2]], item="even", items=[0, 2, 4], bad_items=[3])
 SCALAR_KINDS = ["int", "str", "float", "optint", "union", "literal", "bounded", "even"]
 COLLECTION_KINDS = ["nums", "words", "lits", "grids", "scores", "tags", "labels", "kids", "pairs", "units", "parts", "links", "marks"]
-SEQ_KINDS = ["nums", "words", "lits", "grids", "kids", "fkids", "units", "links"]
+SEQ_KINDS = ["nums", "words", "lits", "grids", "kids", "fkids", "units", "links", "evens"]
 MAP_KINDS = ["scores", "pairs", "parts"]
 SET_KINDS = ["tags", "labels", "marks"]
 ALL_KINDS = SCALAR_KINDS + COLLECTION_KINDS[:7] + ["leaf"] + COLLECTION_KINDS[7:]
@@ -600,6 +603,10 @@ def bad_default_records():
     ]
 
 
+def validated_item_records():
+    return [single("evens", "mut"), composite("CompEvens", [("int", "lit"), ("evens", "mut")])]
+
+
 def twin_records():
     """two attributes of the same kind, so that one object can sit at two places of the same instance"""
     return [
@@ -639,6 +646,8 @@ def quick_family():
         single("marks", "none", item_preparers=["marks"]),
         single("kids", "mut", item_preparers=["kids"]),
         single("nums", "mut", do_not_copy=["nums"]),
+        single("nums", "mut", do_not_copy=["nums"], item_preparers=["nums"]),   # nobody but the item preparation copies
+        single("kids", "mut", do_not_copy=["kids"], item_preparers=["kids"]),
         single("leaf", "mut", do_not_copy=["leaf"]),
         single("nums", "mut", bootstrap=True),
         single("leaf", "none", bootstrap=True),
